@@ -42,6 +42,13 @@ EXTRA = [   # nested / context-key-bound combinations that the Library kinds do 
     ({"processor": "VUndocOperation"}, "float", "float", set()),
     ({"processor": "slice:VUndocOperation:FloatDataCollection"}, "coll", "coll", set()),
     ({"processor": "slice:VUndocProbe:FloatDataCollection", "context_key": "u"}, "coll", "coll", {"u"}),
+    # a sweep over labels (values that are not numbers)
+    ({"processor": "VPairSource", "derive": {"parameter_sweep": {"parameters": {"a": "1 if t == 'low' else 2"},
+                                                                  "variables": {"t": {"values": ["low", "high"]}}, "collection": "FloatDataCollection"}}},
+     "none", "coll", {"t_values"}),
+    ({"processor": "VPairOperation", "derive": {"parameter_sweep": {"parameters": {"a": "len_ok"}, "variables": {"len_ok": {"values": [None, 2.0, "x"]}},
+                                                                     "collection": "FloatDataCollection"}}},
+     "float", "coll", {"len_ok_values"}),
     # a swept probe whose context key is the very key its sweep publishes
     ({"processor": "VPairProbe", "context_key": "t_values", "derive": {"parameter_sweep": {"parameters": {"a": "t"}, "variables": {"t": {"values": [1.0, 2.0]}}}}},
      "float", "float", {"t_values"}),
